@@ -389,4 +389,1030 @@ theorem view_restart_of_consistent (s : Store) (h : Consistent s) (ca : String) 
     s.restart.view ca = s.view ca := by
   rw [view_restart, h ca]
 
+/-! ## What one event does to one entry (projection of `step`) -/
+
+/-- Effect of an event on the entry of parent `p` of `ca`. -/
+def parentProj (e : Ev) (ca p : String) (o : Option ParentStatus) : Option ParentStatus :=
+  match e with
+  | .parentList ca' p' uri _ (.ok ent) now =>
+      if ca' = ca ∧ p' = p then some ((o.getD {}).setEntitlements uri ent now) else o
+  | .parentList ca' p' uri ex (.error err) now =>
+      if ca' = ca ∧ p' = p ∧ ex = true then some ((o.getD {}).setFailure uri err now) else o
+  | .parentRevokes ca' p' uri (.ok ()) now =>
+      if ca' = ca ∧ p' = p then some ((o.getD {}).setLastUpdated uri now) else o
+  | .parentRevokes ca' p' uri (.error err) now =>
+      if ca' = ca ∧ p' = p then some ((o.getD {}).setFailure uri err now) else o
+  | .parentCerts ca' p' uri (.ok ()) now =>
+      if ca' = ca ∧ p' = p then some ((o.getD {}).setLastUpdated uri now) else o
+  | .parentCerts ca' p' uri (.error err) now =>
+      if ca' = ca ∧ p' = p then some ((o.getD {}).setFailure uri err now) else o
+  | .parentRemove ca' p' => if ca' = ca ∧ p' = p then none else o
+  | .caRemove ca' => if ca' = ca then none else o
+  | _ => o
+
+/-- Effect of an event on the entry of child `c` of `ca`. -/
+def childProj (e : Ev) (ca c : String) (o : Option ChildStatus) : Option ChildStatus :=
+  match e with
+  | .childRequest ca' c' agent (.ok ()) now =>
+      if ca' = ca ∧ c' = c then some ((o.getD {}).setSuccess agent now) else o
+  | .childRequest ca' c' agent (.error err) now =>
+      if ca' = ca ∧ c' = c then some ((o.getD {}).setFailure agent err now) else o
+  | .childSuspended ca' c' now =>
+      if ca' = ca ∧ c' = c then some ((o.getD {}).setSuspended now) else o
+  | .childRemove ca' c' => if ca' = ca ∧ c' = c then none else o
+  | .caRemove ca' => if ca' = ca then none else o
+  | _ => o
+
+/-- Effect of an event on the repository status of `ca`. -/
+def repoProj (e : Ev) (ca : String) (r : RepoStatus) : RepoStatus :=
+  match e with
+  | .repoList ca' uri (.ok ()) now => if ca' = ca then r.setLastUpdated uri now else r
+  | .repoList ca' uri (.error err) now => if ca' = ca then r.setFailure uri err now else r
+  | .repoDelta ca' uri d (.ok ()) now => if ca' = ca then r.updatePublished uri d now else r
+  | .repoDelta ca' uri _ (.error err) now => if ca' = ca then r.setFailure uri err now else r
+  | .caRemove ca' => if ca' = ca then {} else r
+  | _ => r
+
+theorem parent?_updateParent (s : Store) (ca ca' p p' : String) (f : ParentStatus → ParentStatus) :
+    (s.updateParent ca' p' f).parent? ca p =
+      if ca' = ca ∧ p' = p then some (f ((s.parent? ca p).getD {})) else s.parent? ca p := by
+  unfold Store.parent?
+  rw [view_updateParent]
+  by_cases h : ca' = ca
+  · subst h
+    simp only [if_true, CaStatus.setParents, alookup_aset, true_and]
+    by_cases h2 : p' = p
+    · subst h2; simp
+    · simp [h2]
+  · simp [h]
+
+theorem parent?_updateRepo (s : Store) (ca ca' p : String) (f : RepoStatus → RepoStatus) :
+    (s.updateRepo ca' f).parent? ca p = s.parent? ca p := by
+  unfold Store.parent?
+  rw [view_updateRepo]
+  by_cases h : ca' = ca
+  · subst h; simp [CaStatus.setRepo]
+  · simp [h]
+
+theorem parent?_updateChild (s : Store) (ca ca' p c : String) (f : ChildStatus → ChildStatus) :
+    (s.updateChild ca' c f).parent? ca p = s.parent? ca p := by
+  unfold Store.parent?
+  rw [view_updateChild]
+  by_cases h : ca' = ca
+  · subst h; simp [CaStatus.setChildren]
+  · simp [h]
+
+theorem parent?_removeParent (s : Store) (ca ca' p p' : String) :
+    (s.removeParent ca' p').parent? ca p =
+      if ca' = ca ∧ p' = p then none else s.parent? ca p := by
+  unfold Store.parent?
+  rw [view_removeParent]
+  by_cases h : ca' = ca
+  · subst h
+    simp only [if_true, CaStatus.setParents, alookup_aerase, true_and]
+  · simp [h]
+
+theorem parent?_removeChild (s : Store) (ca ca' p c : String) :
+    (s.removeChild ca' c).parent? ca p = s.parent? ca p := by
+  unfold Store.parent?
+  rw [view_removeChild]
+  by_cases h : ca' = ca
+  · subst h; simp [CaStatus.setChildren]
+  · simp [h]
+
+theorem parent?_removeCa (s : Store) (ca ca' p : String) :
+    (s.removeCa ca').parent? ca p = if ca' = ca then none else s.parent? ca p := by
+  unfold Store.parent?
+  rw [view_removeCa]
+  by_cases h : ca' = ca
+  · subst h; simp [alookup]
+  · simp [h]
+
+theorem parent?_step (s : Store) (h : Consistent s) (e : Ev) (ca p : String) :
+    (step s e).parent? ca p = parentProj e ca p (s.parent? ca p) := by
+  cases e with
+  | repoList ca' uri reply now =>
+    cases reply with
+    | ok u => cases u; exact parent?_updateRepo s _ _ _ _
+    | error e => exact parent?_updateRepo s _ _ _ _
+  | repoDelta ca' uri d reply now =>
+    cases reply with
+    | ok u => cases u; exact parent?_updateRepo s _ _ _ _
+    | error e => exact parent?_updateRepo s _ _ _ _
+  | parentList ca' p' uri ex reply now =>
+    cases reply with
+    | ok ent => exact parent?_updateParent s _ _ _ _ _
+    | error e =>
+      simp only [step, parentProj]
+      cases ex with
+      | true => simp only [if_true, and_true]; exact parent?_updateParent s _ _ _ _ _
+      | false => simp
+  | parentRevokes ca' p' uri reply now =>
+    cases reply with
+    | ok u => cases u; exact parent?_updateParent s _ _ _ _ _
+    | error e => exact parent?_updateParent s _ _ _ _ _
+  | parentCerts ca' p' uri reply now =>
+    cases reply with
+    | ok u => cases u; exact parent?_updateParent s _ _ _ _ _
+    | error e => exact parent?_updateParent s _ _ _ _ _
+  | childRequest ca' c agent outcome now =>
+    cases outcome with
+    | ok u => cases u; exact parent?_updateChild s _ _ _ _ _
+    | error e => exact parent?_updateChild s _ _ _ _ _
+  | childSuspended ca' c now => exact parent?_updateChild s _ _ _ _ _
+  | parentRemove ca' p' => exact parent?_removeParent s _ _ _ _
+  | childRemove ca' c => exact parent?_removeChild s _ _ _ _
+  | caRemove ca' => exact parent?_removeCa s _ _ _
+  | restart =>
+    simp only [step, parentProj, Store.parent?]
+    rw [view_restart_of_consistent s h]
+
+theorem parent?_run (s : Store) (h : Consistent s) (evs : List Ev) (ca p : String) :
+    (run s evs).parent? ca p = evs.foldl (fun o e => parentProj e ca p o) (s.parent? ca p) := by
+  induction evs generalizing s with
+  | nil => rfl
+  | cons e t ih =>
+    rw [run_cons, ih (step s e) (consistent_step s h e), parent?_step s h]
+    rfl
+
+/-! ### children -/
+
+theorem child?_updateChild (s : Store) (ca ca' c c' : String) (f : ChildStatus → ChildStatus) :
+    (s.updateChild ca' c' f).child? ca c =
+      if ca' = ca ∧ c' = c then some (f ((s.child? ca c).getD {})) else s.child? ca c := by
+  unfold Store.child?
+  rw [view_updateChild]
+  by_cases h : ca' = ca
+  · subst h
+    simp only [if_true, CaStatus.setChildren, alookup_aset, true_and]
+    by_cases h2 : c' = c
+    · subst h2; simp
+    · simp [h2]
+  · simp [h]
+
+theorem child?_updateRepo (s : Store) (ca ca' c : String) (f : RepoStatus → RepoStatus) :
+    (s.updateRepo ca' f).child? ca c = s.child? ca c := by
+  unfold Store.child?
+  rw [view_updateRepo]
+  by_cases h : ca' = ca
+  · subst h; simp [CaStatus.setRepo]
+  · simp [h]
+
+theorem child?_updateParent (s : Store) (ca ca' p c : String) (f : ParentStatus → ParentStatus) :
+    (s.updateParent ca' p f).child? ca c = s.child? ca c := by
+  unfold Store.child?
+  rw [view_updateParent]
+  by_cases h : ca' = ca
+  · subst h; simp [CaStatus.setParents]
+  · simp [h]
+
+theorem child?_removeChild (s : Store) (ca ca' c c' : String) :
+    (s.removeChild ca' c').child? ca c =
+      if ca' = ca ∧ c' = c then none else s.child? ca c := by
+  unfold Store.child?
+  rw [view_removeChild]
+  by_cases h : ca' = ca
+  · subst h
+    simp only [if_true, CaStatus.setChildren, alookup_aerase, true_and]
+  · simp [h]
+
+theorem child?_removeParent (s : Store) (ca ca' p c : String) :
+    (s.removeParent ca' p).child? ca c = s.child? ca c := by
+  unfold Store.child?
+  rw [view_removeParent]
+  by_cases h : ca' = ca
+  · subst h; simp [CaStatus.setParents]
+  · simp [h]
+
+theorem child?_removeCa (s : Store) (ca ca' c : String) :
+    (s.removeCa ca').child? ca c = if ca' = ca then none else s.child? ca c := by
+  unfold Store.child?
+  rw [view_removeCa]
+  by_cases h : ca' = ca
+  · subst h; simp [alookup]
+  · simp [h]
+
+theorem child?_step (s : Store) (h : Consistent s) (e : Ev) (ca c : String) :
+    (step s e).child? ca c = childProj e ca c (s.child? ca c) := by
+  cases e with
+  | repoList ca' uri reply now =>
+    cases reply with
+    | ok u => cases u; exact child?_updateRepo s _ _ _ _
+    | error e => exact child?_updateRepo s _ _ _ _
+  | repoDelta ca' uri d reply now =>
+    cases reply with
+    | ok u => cases u; exact child?_updateRepo s _ _ _ _
+    | error e => exact child?_updateRepo s _ _ _ _
+  | parentList ca' p' uri ex reply now =>
+    cases reply with
+    | ok ent => exact child?_updateParent s _ _ _ _ _
+    | error e =>
+      simp only [step, childProj]
+      split
+      · exact child?_updateParent s _ _ _ _ _
+      · rfl
+  | parentRevokes ca' p' uri reply now =>
+    cases reply with
+    | ok u => cases u; exact child?_updateParent s _ _ _ _ _
+    | error e => exact child?_updateParent s _ _ _ _ _
+  | parentCerts ca' p' uri reply now =>
+    cases reply with
+    | ok u => cases u; exact child?_updateParent s _ _ _ _ _
+    | error e => exact child?_updateParent s _ _ _ _ _
+  | childRequest ca' c' agent outcome now =>
+    cases outcome with
+    | ok u => cases u; exact child?_updateChild s _ _ _ _ _
+    | error e => exact child?_updateChild s _ _ _ _ _
+  | childSuspended ca' c' now => exact child?_updateChild s _ _ _ _ _
+  | parentRemove ca' p' => exact child?_removeParent s _ _ _ _
+  | childRemove ca' c' => exact child?_removeChild s _ _ _ _
+  | caRemove ca' => exact child?_removeCa s _ _ _
+  | restart =>
+    simp only [step, childProj, Store.child?]
+    rw [view_restart_of_consistent s h]
+
+theorem child?_run (s : Store) (h : Consistent s) (evs : List Ev) (ca c : String) :
+    (run s evs).child? ca c = evs.foldl (fun o e => childProj e ca c o) (s.child? ca c) := by
+  induction evs generalizing s with
+  | nil => rfl
+  | cons e t ih =>
+    rw [run_cons, ih (step s e) (consistent_step s h e), child?_step s h]
+    rfl
+
+/-! ### repository -/
+
+theorem repo_updateRepo (s : Store) (ca ca' : String) (f : RepoStatus → RepoStatus) :
+    (s.updateRepo ca' f).repo ca = if ca' = ca then f (s.repo ca) else s.repo ca := by
+  unfold Store.repo
+  rw [view_updateRepo]
+  by_cases h : ca' = ca
+  · subst h; simp [CaStatus.setRepo]
+  · simp [h]
+
+theorem repo_updateParent (s : Store) (ca ca' p : String) (f : ParentStatus → ParentStatus) :
+    (s.updateParent ca' p f).repo ca = s.repo ca := by
+  unfold Store.repo
+  rw [view_updateParent]
+  by_cases h : ca' = ca
+  · subst h; simp [CaStatus.setParents]
+  · simp [h]
+
+theorem repo_updateChild (s : Store) (ca ca' c : String) (f : ChildStatus → ChildStatus) :
+    (s.updateChild ca' c f).repo ca = s.repo ca := by
+  unfold Store.repo
+  rw [view_updateChild]
+  by_cases h : ca' = ca
+  · subst h; simp [CaStatus.setChildren]
+  · simp [h]
+
+theorem repo_removeParent (s : Store) (ca ca' p : String) :
+    (s.removeParent ca' p).repo ca = s.repo ca := by
+  unfold Store.repo
+  rw [view_removeParent]
+  by_cases h : ca' = ca
+  · subst h; simp [CaStatus.setParents]
+  · simp [h]
+
+theorem repo_removeChild (s : Store) (ca ca' c : String) :
+    (s.removeChild ca' c).repo ca = s.repo ca := by
+  unfold Store.repo
+  rw [view_removeChild]
+  by_cases h : ca' = ca
+  · subst h; simp [CaStatus.setChildren]
+  · simp [h]
+
+theorem repo_removeCa (s : Store) (ca ca' : String) :
+    (s.removeCa ca').repo ca = if ca' = ca then {} else s.repo ca := by
+  unfold Store.repo
+  rw [view_removeCa]
+  by_cases h : ca' = ca
+  · subst h; simp
+  · simp [h]
+
+theorem repo_step (s : Store) (h : Consistent s) (e : Ev) (ca : String) :
+    (step s e).repo ca = repoProj e ca (s.repo ca) := by
+  cases e with
+  | repoList ca' uri reply now =>
+    cases reply with
+    | ok u => cases u; exact repo_updateRepo s _ _ _
+    | error e => exact repo_updateRepo s _ _ _
+  | repoDelta ca' uri d reply now =>
+    cases reply with
+    | ok u => cases u; exact repo_updateRepo s _ _ _
+    | error e => exact repo_updateRepo s _ _ _
+  | parentList ca' p' uri ex reply now =>
+    cases reply with
+    | ok ent => exact repo_updateParent s _ _ _ _
+    | error e =>
+      simp only [step, repoProj]
+      split
+      · exact repo_updateParent s _ _ _ _
+      · rfl
+  | parentRevokes ca' p' uri reply now =>
+    cases reply with
+    | ok u => cases u; exact repo_updateParent s _ _ _ _
+    | error e => exact repo_updateParent s _ _ _ _
+  | parentCerts ca' p' uri reply now =>
+    cases reply with
+    | ok u => cases u; exact repo_updateParent s _ _ _ _
+    | error e => exact repo_updateParent s _ _ _ _
+  | childRequest ca' c' agent outcome now =>
+    cases outcome with
+    | ok u => cases u; exact repo_updateChild s _ _ _ _
+    | error e => exact repo_updateChild s _ _ _ _
+  | childSuspended ca' c' now => exact repo_updateChild s _ _ _ _
+  | parentRemove ca' p' => exact repo_removeParent s _ _ _
+  | childRemove ca' c' => exact repo_removeChild s _ _ _
+  | caRemove ca' => exact repo_removeCa s _ _
+  | restart =>
+    simp only [step, repoProj, Store.repo]
+    rw [view_restart_of_consistent s h]
+
+theorem repo_run (s : Store) (h : Consistent s) (evs : List Ev) (ca : String) :
+    (run s evs).repo ca = evs.foldl (fun r e => repoProj e ca r) (s.repo ca) := by
+  induction evs generalizing s with
+  | nil => rfl
+  | cons e t ih =>
+    rw [run_cons, ih (step s e) (consistent_step s h e), repo_step s h]
+    rfl
+
+/-! ## folds over histories -/
+
+theorem foldl_preserves {σ ε β} (f : σ → ε → σ) (g : σ → β) (l : List ε)
+    (h : ∀ e ∈ l, ∀ o, g (f o e) = g o) (o : σ) : g (l.foldl f o) = g o := by
+  induction l generalizing o with
+  | nil => rfl
+  | cons e t ih =>
+    simp only [List.foldl_cons]
+    rw [ih (fun e' he' => h e' (List.mem_cons_of_mem _ he')), h e (List.mem_cons_self ..)]
+
+/-! ### parents -/
+
+theorem parentProj_of_not_touches (e : Ev) (ca p : String) (o : Option ParentStatus)
+    (h : e.touchesParent ca p = false) : parentProj e ca p o = o := by
+  cases e with
+  | parentList ca' p' uri ex reply now =>
+    simp only [Ev.touchesParent, Bool.and_eq_false_iff, decide_eq_false_iff_not] at h
+    have : ¬ (ca' = ca ∧ p' = p) := fun ⟨a, b⟩ => by rcases h with h | h <;> contradiction
+    cases reply with
+    | ok ent => simp [parentProj, this]
+    | error err =>
+      have : ¬ (ca' = ca ∧ p' = p ∧ ex = true) := fun ⟨a, b, _⟩ => this ⟨a, b⟩
+      simp [parentProj, this]
+  | parentRevokes ca' p' uri reply now =>
+    simp only [Ev.touchesParent, Bool.and_eq_false_iff, decide_eq_false_iff_not] at h
+    have : ¬ (ca' = ca ∧ p' = p) := fun ⟨a, b⟩ => by rcases h with h | h <;> contradiction
+    cases reply with
+    | ok u => cases u; simp [parentProj, this]
+    | error err => simp [parentProj, this]
+  | parentCerts ca' p' uri reply now =>
+    simp only [Ev.touchesParent, Bool.and_eq_false_iff, decide_eq_false_iff_not] at h
+    have : ¬ (ca' = ca ∧ p' = p) := fun ⟨a, b⟩ => by rcases h with h | h <;> contradiction
+    cases reply with
+    | ok u => cases u; simp [parentProj, this]
+    | error err => simp [parentProj, this]
+  | parentRemove ca' p' =>
+    simp only [Ev.touchesParent, Ev.removesParent, Bool.and_eq_false_iff,
+      decide_eq_false_iff_not] at h
+    have : ¬ (ca' = ca ∧ p' = p) := fun ⟨a, b⟩ => by rcases h with h | h <;> contradiction
+    simp [parentProj, this]
+  | caRemove ca' =>
+    simp only [Ev.touchesParent, Ev.removesParent, Ev.removesCa, decide_eq_false_iff_not] at h
+    simp [parentProj, h]
+  | repoList ca' uri reply now => cases reply <;> rfl
+  | repoDelta ca' uri d reply now => cases reply <;> rfl
+  | childRequest ca' c agent outcome now => cases outcome <;> rfl
+  | childSuspended ca' c now => rfl
+  | childRemove ca' c => rfl
+  | restart => rfl
+
+theorem parentProj_attempt (e : Ev) (ca p : String) (x : Exchange) (o : Option ParentStatus)
+    (h : e.parentAttempt? = some (ca, p, x)) :
+    ∃ st, parentProj e ca p o = some st ∧ st.lastExchange = some x ∧
+      (x.result = .success → st.lastSuccess = some x.time) ∧
+      (x.result ≠ .success → st.lastSuccess = (o.getD {}).lastSuccess ∧
+        st.classes = (o.getD {}).classes ∧ st.allResources = (o.getD {}).allResources) := by
+  cases e with
+  | parentList ca' p' uri ex reply now =>
+    cases reply with
+    | ok ent =>
+      simp only [Ev.parentAttempt?, Option.some.injEq, Prod.mk.injEq] at h
+      obtain ⟨rfl, rfl, rfl⟩ := h
+      refine ⟨(o.getD {}).setEntitlements uri ent now, by simp [parentProj], rfl, fun _ => rfl, ?_⟩
+      intro h; exact absurd rfl h
+    | error err =>
+      cases ex with
+      | false => simp [Ev.parentAttempt?] at h
+      | true =>
+        simp only [Ev.parentAttempt?, Option.some.injEq, Prod.mk.injEq] at h
+        obtain ⟨rfl, rfl, rfl⟩ := h
+        refine ⟨(o.getD {}).setFailure uri err now, by simp [parentProj], rfl, ?_, ?_⟩
+        · intro h; cases h
+        · intro _; exact ⟨rfl, rfl, rfl⟩
+  | parentRevokes ca' p' uri reply now =>
+    simp only [Ev.parentAttempt?, Option.some.injEq, Prod.mk.injEq] at h
+    obtain ⟨rfl, rfl, rfl⟩ := h
+    cases reply with
+    | ok u =>
+      cases u
+      refine ⟨(o.getD {}).setLastUpdated uri now, by simp [parentProj], rfl, fun _ => rfl, ?_⟩
+      intro h; exact absurd rfl h
+    | error err =>
+      refine ⟨(o.getD {}).setFailure uri err now, by simp [parentProj], rfl, ?_, ?_⟩
+      · intro h; cases h
+      · intro _; exact ⟨rfl, rfl, rfl⟩
+  | parentCerts ca' p' uri reply now =>
+    simp only [Ev.parentAttempt?, Option.some.injEq, Prod.mk.injEq] at h
+    obtain ⟨rfl, rfl, rfl⟩ := h
+    cases reply with
+    | ok u =>
+      cases u
+      refine ⟨(o.getD {}).setLastUpdated uri now, by simp [parentProj], rfl, fun _ => rfl, ?_⟩
+      intro h; exact absurd rfl h
+    | error err =>
+      refine ⟨(o.getD {}).setFailure uri err now, by simp [parentProj], rfl, ?_, ?_⟩
+      · intro h; cases h
+      · intro _; exact ⟨rfl, rfl, rfl⟩
+  | repoList ca' uri reply now => simp [Ev.parentAttempt?] at h
+  | repoDelta ca' uri d reply now => simp [Ev.parentAttempt?] at h
+  | childRequest ca' c agent outcome now => simp [Ev.parentAttempt?] at h
+  | childSuspended ca' c now => simp [Ev.parentAttempt?] at h
+  | parentRemove ca' p' => simp [Ev.parentAttempt?] at h
+  | childRemove ca' c => simp [Ev.parentAttempt?] at h
+  | caRemove ca' => simp [Ev.parentAttempt?] at h
+  | restart => simp [Ev.parentAttempt?] at h
+
+theorem parentProj_keeps_lastSuccess (e : Ev) (ca p : String) (o : Option ParentStatus)
+    (h1 : e.parentSuccess ca p = false) (h2 : e.removesParent ca p = false) :
+    (parentProj e ca p o).bind (·.lastSuccess) = o.bind (·.lastSuccess) := by
+  cases e with
+  | parentList ca' p' uri ex reply now =>
+    cases reply with
+    | ok ent =>
+      have : ¬ (ca' = ca ∧ p' = p) := by
+        intro ⟨a, b⟩
+        simp [Ev.parentSuccess, Ev.parentAttempt?, a, b, Result.wasSuccess] at h1
+      simp [parentProj, this]
+    | error err =>
+      simp only [parentProj]
+      split
+      · cases o <;> rfl
+      · rfl
+  | parentRevokes ca' p' uri reply now =>
+    cases reply with
+    | ok u =>
+      cases u
+      have : ¬ (ca' = ca ∧ p' = p) := by
+        intro ⟨a, b⟩
+        simp [Ev.parentSuccess, Ev.parentAttempt?, a, b, Result.wasSuccess, resultOf] at h1
+      simp [parentProj, this]
+    | error err =>
+      simp only [parentProj]
+      split
+      · cases o <;> rfl
+      · rfl
+  | parentCerts ca' p' uri reply now =>
+    cases reply with
+    | ok u =>
+      cases u
+      have : ¬ (ca' = ca ∧ p' = p) := by
+        intro ⟨a, b⟩
+        simp [Ev.parentSuccess, Ev.parentAttempt?, a, b, Result.wasSuccess, resultOf] at h1
+      simp [parentProj, this]
+    | error err =>
+      simp only [parentProj]
+      split
+      · cases o <;> rfl
+      · rfl
+  | parentRemove ca' p' =>
+    simp only [Ev.removesParent, Bool.and_eq_false_iff, decide_eq_false_iff_not] at h2
+    have : ¬ (ca' = ca ∧ p' = p) := fun ⟨a, b⟩ => by rcases h2 with h | h <;> contradiction
+    simp [parentProj, this]
+  | caRemove ca' =>
+    simp only [Ev.removesParent, Ev.removesCa, decide_eq_false_iff_not] at h2
+    simp [parentProj, h2]
+  | repoList ca' uri reply now => cases reply <;> rfl
+  | repoDelta ca' uri d reply now => cases reply <;> rfl
+  | childRequest ca' c agent outcome now => cases outcome <;> rfl
+  | childSuspended ca' c now => rfl
+  | childRemove ca' c => rfl
+  | restart => rfl
+
+theorem parentProj_keeps_classes (e : Ev) (ca p : String) (o : Option ParentStatus)
+    (h1 : e.parentListSuccess ca p = false) (h2 : e.removesParent ca p = false) :
+    ((parentProj e ca p o).getD {}).classes = (o.getD {}).classes ∧
+    ((parentProj e ca p o).getD {}).allResources = (o.getD {}).allResources := by
+  cases e with
+  | parentList ca' p' uri ex reply now =>
+    cases reply with
+    | ok ent =>
+      have : ¬ (ca' = ca ∧ p' = p) := by
+        intro ⟨a, b⟩
+        simp [Ev.parentListSuccess, a, b] at h1
+      simp [parentProj, this]
+    | error err =>
+      simp only [parentProj]
+      split
+      · exact ⟨rfl, rfl⟩
+      · exact ⟨rfl, rfl⟩
+  | parentRevokes ca' p' uri reply now =>
+    cases reply with
+    | ok u =>
+      cases u
+      simp only [parentProj]
+      split
+      · exact ⟨rfl, rfl⟩
+      · exact ⟨rfl, rfl⟩
+    | error err =>
+      simp only [parentProj]
+      split
+      · exact ⟨rfl, rfl⟩
+      · exact ⟨rfl, rfl⟩
+  | parentCerts ca' p' uri reply now =>
+    cases reply with
+    | ok u =>
+      cases u
+      simp only [parentProj]
+      split
+      · exact ⟨rfl, rfl⟩
+      · exact ⟨rfl, rfl⟩
+    | error err =>
+      simp only [parentProj]
+      split
+      · exact ⟨rfl, rfl⟩
+      · exact ⟨rfl, rfl⟩
+  | parentRemove ca' p' =>
+    simp only [Ev.removesParent, Bool.and_eq_false_iff, decide_eq_false_iff_not] at h2
+    have : ¬ (ca' = ca ∧ p' = p) := fun ⟨a, b⟩ => by rcases h2 with h | h <;> contradiction
+    simp [parentProj, this]
+  | caRemove ca' =>
+    simp only [Ev.removesParent, Ev.removesCa, decide_eq_false_iff_not] at h2
+    simp [parentProj, h2]
+  | repoList ca' uri reply now => cases reply <;> exact ⟨rfl, rfl⟩
+  | repoDelta ca' uri d reply now => cases reply <;> exact ⟨rfl, rfl⟩
+  | childRequest ca' c agent outcome now => cases outcome <;> exact ⟨rfl, rfl⟩
+  | childSuspended ca' c now => exact ⟨rfl, rfl⟩
+  | childRemove ca' c => exact ⟨rfl, rfl⟩
+  | restart => exact ⟨rfl, rfl⟩
+
+/-! ### repository -/
+
+theorem repoProj_of_not_touches (e : Ev) (ca : String) (r : RepoStatus)
+    (h : e.touchesRepo ca = false) : repoProj e ca r = r := by
+  cases e with
+  | repoList ca' uri reply now =>
+    simp only [Ev.touchesRepo, decide_eq_false_iff_not] at h
+    cases reply with
+    | ok u => cases u; simp [repoProj, h]
+    | error err => simp [repoProj, h]
+  | repoDelta ca' uri d reply now =>
+    simp only [Ev.touchesRepo, decide_eq_false_iff_not] at h
+    cases reply with
+    | ok u => cases u; simp [repoProj, h]
+    | error err => simp [repoProj, h]
+  | caRemove ca' =>
+    simp only [Ev.touchesRepo, Ev.removesCa, decide_eq_false_iff_not] at h
+    simp [repoProj, h]
+  | parentList ca' p' uri ex reply now => cases reply <;> rfl
+  | parentRevokes ca' p' uri reply now => cases reply <;> rfl
+  | parentCerts ca' p' uri reply now => cases reply <;> rfl
+  | childRequest ca' c agent outcome now => cases outcome <;> rfl
+  | childSuspended ca' c now => rfl
+  | parentRemove ca' p' => rfl
+  | childRemove ca' c => rfl
+  | restart => rfl
+
+theorem repoProj_attempt (e : Ev) (ca : String) (x : Exchange) (r : RepoStatus)
+    (h : e.repoAttempt? = some (ca, x)) :
+    (repoProj e ca r).lastExchange = some x ∧
+      (x.result = .success → (repoProj e ca r).lastSuccess = some x.time) ∧
+      (x.result ≠ .success → (repoProj e ca r).lastSuccess = r.lastSuccess ∧
+        (repoProj e ca r).published = r.published) := by
+  cases e with
+  | repoList ca' uri reply now =>
+    simp only [Ev.repoAttempt?, Option.some.injEq, Prod.mk.injEq] at h
+    obtain ⟨rfl, rfl⟩ := h
+    cases reply with
+    | ok u =>
+      cases u
+      refine ⟨by simp [repoProj, RepoStatus.setLastUpdated, resultOf], ?_, ?_⟩
+      · intro _; simp [repoProj, RepoStatus.setLastUpdated]
+      · intro h; exact absurd rfl h
+    | error err =>
+      refine ⟨by simp [repoProj, RepoStatus.setFailure, resultOf], ?_, ?_⟩
+      · intro h; cases h
+      · intro _; simp [repoProj, RepoStatus.setFailure]
+  | repoDelta ca' uri d reply now =>
+    simp only [Ev.repoAttempt?, Option.some.injEq, Prod.mk.injEq] at h
+    obtain ⟨rfl, rfl⟩ := h
+    cases reply with
+    | ok u =>
+      cases u
+      refine ⟨by simp [repoProj, RepoStatus.updatePublished, resultOf], ?_, ?_⟩
+      · intro _; simp [repoProj, RepoStatus.updatePublished]
+      · intro h; exact absurd rfl h
+    | error err =>
+      refine ⟨by simp [repoProj, RepoStatus.setFailure, resultOf], ?_, ?_⟩
+      · intro h; cases h
+      · intro _; simp [repoProj, RepoStatus.setFailure]
+  | parentList ca' p' uri ex reply now => simp [Ev.repoAttempt?] at h
+  | parentRevokes ca' p' uri reply now => simp [Ev.repoAttempt?] at h
+  | parentCerts ca' p' uri reply now => simp [Ev.repoAttempt?] at h
+  | childRequest ca' c agent outcome now => simp [Ev.repoAttempt?] at h
+  | childSuspended ca' c now => simp [Ev.repoAttempt?] at h
+  | parentRemove ca' p' => simp [Ev.repoAttempt?] at h
+  | childRemove ca' c => simp [Ev.repoAttempt?] at h
+  | caRemove ca' => simp [Ev.repoAttempt?] at h
+  | restart => simp [Ev.repoAttempt?] at h
+
+theorem repoProj_keeps_lastSuccess (e : Ev) (ca : String) (r : RepoStatus)
+    (h1 : e.repoSuccess ca = false) (h2 : e.removesCa ca = false) :
+    (repoProj e ca r).lastSuccess = r.lastSuccess ∧ (repoProj e ca r).published = r.published := by
+  cases e with
+  | repoList ca' uri reply now =>
+    cases reply with
+    | ok u =>
+      cases u
+      have : ¬ ca' = ca := by
+        intro a
+        simp [Ev.repoSuccess, Ev.repoAttempt?, a, Result.wasSuccess, resultOf] at h1
+      simp [repoProj, this]
+    | error err =>
+      simp only [repoProj]
+      split
+      · exact ⟨rfl, rfl⟩
+      · exact ⟨rfl, rfl⟩
+  | repoDelta ca' uri d reply now =>
+    cases reply with
+    | ok u =>
+      cases u
+      have : ¬ ca' = ca := by
+        intro a
+        simp [Ev.repoSuccess, Ev.repoAttempt?, a, Result.wasSuccess, resultOf] at h1
+      simp [repoProj, this]
+    | error err =>
+      simp only [repoProj]
+      split
+      · exact ⟨rfl, rfl⟩
+      · exact ⟨rfl, rfl⟩
+  | caRemove ca' =>
+    simp only [Ev.removesCa, decide_eq_false_iff_not] at h2
+    simp [repoProj, h2]
+  | parentList ca' p' uri ex reply now => cases reply <;> exact ⟨rfl, rfl⟩
+  | parentRevokes ca' p' uri reply now => cases reply <;> exact ⟨rfl, rfl⟩
+  | parentCerts ca' p' uri reply now => cases reply <;> exact ⟨rfl, rfl⟩
+  | childRequest ca' c agent outcome now => cases outcome <;> exact ⟨rfl, rfl⟩
+  | childSuspended ca' c now => exact ⟨rfl, rfl⟩
+  | parentRemove ca' p' => exact ⟨rfl, rfl⟩
+  | childRemove ca' c => exact ⟨rfl, rfl⟩
+  | restart => exact ⟨rfl, rfl⟩
+
+/-! ### children -/
+
+theorem childProj_of_not_touches (e : Ev) (ca c : String) (o : Option ChildStatus)
+    (h : e.touchesChild ca c = false) : childProj e ca c o = o := by
+  cases e with
+  | childRequest ca' c' agent outcome now =>
+    simp only [Ev.touchesChild, Bool.and_eq_false_iff, decide_eq_false_iff_not] at h
+    have : ¬ (ca' = ca ∧ c' = c) := fun ⟨a, b⟩ => by rcases h with h | h <;> contradiction
+    cases outcome with
+    | ok u => cases u; simp [childProj, this]
+    | error err => simp [childProj, this]
+  | childSuspended ca' c' now =>
+    simp only [Ev.touchesChild, Bool.and_eq_false_iff, decide_eq_false_iff_not] at h
+    have : ¬ (ca' = ca ∧ c' = c) := fun ⟨a, b⟩ => by rcases h with h | h <;> contradiction
+    simp [childProj, this]
+  | childRemove ca' c' =>
+    simp only [Ev.touchesChild, Ev.removesChild, Bool.and_eq_false_iff,
+      decide_eq_false_iff_not] at h
+    have : ¬ (ca' = ca ∧ c' = c) := fun ⟨a, b⟩ => by rcases h with h | h <;> contradiction
+    simp [childProj, this]
+  | caRemove ca' =>
+    simp only [Ev.touchesChild, Ev.removesChild, Ev.removesCa, decide_eq_false_iff_not] at h
+    simp [childProj, h]
+  | repoList ca' uri reply now => cases reply <;> rfl
+  | repoDelta ca' uri d reply now => cases reply <;> rfl
+  | parentList ca' p' uri ex reply now => cases reply <;> rfl
+  | parentRevokes ca' p' uri reply now => cases reply <;> rfl
+  | parentCerts ca' p' uri reply now => cases reply <;> rfl
+  | parentRemove ca' p' => rfl
+  | restart => rfl
+
+theorem childProj_attempt (e : Ev) (ca c : String) (x : ChildExchange) (o : Option ChildStatus)
+    (h : e.childAttempt? = some (ca, c, x)) :
+    ∃ st, childProj e ca c o = some st ∧ st.lastExchange = some x ∧ st.suspended = none ∧
+      (x.result = .success → st.lastSuccess = some x.time) ∧
+      (x.result ≠ .success → st.lastSuccess = (o.getD {}).lastSuccess) := by
+  cases e with
+  | childRequest ca' c' agent outcome now =>
+    simp only [Ev.childAttempt?, Option.some.injEq, Prod.mk.injEq] at h
+    obtain ⟨rfl, rfl, rfl⟩ := h
+    cases outcome with
+    | ok u =>
+      cases u
+      refine ⟨(o.getD {}).setSuccess agent now, by simp [childProj], rfl, rfl, fun _ => rfl, ?_⟩
+      intro h; exact absurd rfl h
+    | error err =>
+      refine ⟨(o.getD {}).setFailure agent err now, by simp [childProj], rfl, rfl, ?_, fun _ => rfl⟩
+      intro h; cases h
+  | repoList ca' uri reply now => simp [Ev.childAttempt?] at h
+  | repoDelta ca' uri d reply now => simp [Ev.childAttempt?] at h
+  | parentList ca' p' uri ex reply now => simp [Ev.childAttempt?] at h
+  | parentRevokes ca' p' uri reply now => simp [Ev.childAttempt?] at h
+  | parentCerts ca' p' uri reply now => simp [Ev.childAttempt?] at h
+  | childSuspended ca' c' now => simp [Ev.childAttempt?] at h
+  | parentRemove ca' p' => simp [Ev.childAttempt?] at h
+  | childRemove ca' c' => simp [Ev.childAttempt?] at h
+  | caRemove ca' => simp [Ev.childAttempt?] at h
+  | restart => simp [Ev.childAttempt?] at h
+
+/-- Anything but a request of this child or its removal leaves the recorded exchange alone
+(the suspension marker is a separate field). -/
+theorem childProj_keeps_lastExchange (e : Ev) (ca c : String) (o : Option ChildStatus)
+    (h1 : e.childRequestOf ca c = false) (h2 : e.removesChild ca c = false) :
+    (childProj e ca c o).bind (·.lastExchange) = o.bind (·.lastExchange) ∧
+    (childProj e ca c o).bind (·.lastSuccess) = o.bind (·.lastSuccess) := by
+  cases e with
+  | childRequest ca' c' agent outcome now =>
+    simp only [Ev.childRequestOf, Bool.and_eq_false_iff, decide_eq_false_iff_not] at h1
+    have : ¬ (ca' = ca ∧ c' = c) := fun ⟨a, b⟩ => by rcases h1 with h | h <;> contradiction
+    cases outcome with
+    | ok u => cases u; simp [childProj, this]
+    | error err => simp [childProj, this]
+  | childSuspended ca' c' now =>
+    simp only [childProj]
+    split
+    · cases o <;> exact ⟨rfl, rfl⟩
+    · exact ⟨rfl, rfl⟩
+  | childRemove ca' c' =>
+    simp only [Ev.removesChild, Bool.and_eq_false_iff, decide_eq_false_iff_not] at h2
+    have : ¬ (ca' = ca ∧ c' = c) := fun ⟨a, b⟩ => by rcases h2 with h | h <;> contradiction
+    simp [childProj, this]
+  | caRemove ca' =>
+    simp only [Ev.removesChild, Ev.removesCa, decide_eq_false_iff_not] at h2
+    simp [childProj, h2]
+  | repoList ca' uri reply now => cases reply <;> exact ⟨rfl, rfl⟩
+  | repoDelta ca' uri d reply now => cases reply <;> exact ⟨rfl, rfl⟩
+  | parentList ca' p' uri ex reply now => cases reply <;> exact ⟨rfl, rfl⟩
+  | parentRevokes ca' p' uri reply now => cases reply <;> exact ⟨rfl, rfl⟩
+  | parentCerts ca' p' uri reply now => cases reply <;> exact ⟨rfl, rfl⟩
+  | parentRemove ca' p' => exact ⟨rfl, rfl⟩
+  | restart => exact ⟨rfl, rfl⟩
+
+theorem childProj_keeps_lastSuccess (e : Ev) (ca c : String) (o : Option ChildStatus)
+    (h1 : e.childSuccess ca c = false) (h2 : e.removesChild ca c = false) :
+    (childProj e ca c o).bind (·.lastSuccess) = o.bind (·.lastSuccess) := by
+  cases e with
+  | childRequest ca' c' agent outcome now =>
+    cases outcome with
+    | ok u =>
+      cases u
+      have : ¬ (ca' = ca ∧ c' = c) := by
+        intro ⟨a, b⟩
+        simp [Ev.childSuccess, Ev.childAttempt?, a, b, Result.wasSuccess, resultOf] at h1
+      simp [childProj, this]
+    | error err =>
+      simp only [childProj]
+      split
+      · cases o <;> rfl
+      · rfl
+  | childSuspended ca' c' now =>
+    simp only [childProj]
+    split
+    · cases o <;> rfl
+    · rfl
+  | childRemove ca' c' =>
+    simp only [Ev.removesChild, Bool.and_eq_false_iff, decide_eq_false_iff_not] at h2
+    have : ¬ (ca' = ca ∧ c' = c) := fun ⟨a, b⟩ => by rcases h2 with h | h <;> contradiction
+    simp [childProj, this]
+  | caRemove ca' =>
+    simp only [Ev.removesChild, Ev.removesCa, decide_eq_false_iff_not] at h2
+    simp [childProj, h2]
+  | repoList ca' uri reply now => cases reply <;> rfl
+  | repoDelta ca' uri d reply now => cases reply <;> rfl
+  | parentList ca' p' uri ex reply now => cases reply <;> rfl
+  | parentRevokes ca' p' uri reply now => cases reply <;> rfl
+  | parentCerts ca' p' uri reply now => cases reply <;> rfl
+  | parentRemove ca' p' => rfl
+  | restart => rfl
+
+/-! ## the shadow list of published files -/
+
+theorem entries_append (p q : List File) (u : String) :
+    entries (p ++ q) u = entries p u ++ entries q u := by
+  simp [entries, List.filter_append]
+
+theorem entries_filter_ne (p : List File) (u v : String) :
+    entries (p.filter fun e => e.1 != u) v = if u = v then [] else entries p v := by
+  unfold entries
+  rw [List.filter_filter]
+  by_cases h : u = v
+  · subst h
+    simp only [if_true, List.map_eq_nil_iff, List.filter_eq_nil_iff]
+    intro a _
+    by_cases ha : a.1 = u <;> simp [ha]
+  · simp only [h, if_false]
+    congr 1
+    apply List.filter_congr
+    intro a _
+    by_cases ha : a.1 = v
+    · simp [ha]
+      intro hh; exact absurd hh.symm h
+    · simp [ha]
+
+/-- What one delta element does to the contents listed for a URI: a function of those contents
+only. -/
+def elEffect (el : DeltaEl) (v : String) (cs : List String) : List String :=
+  match el with
+  | .publish u c => if u = v then cs ++ [c] else cs
+  | .update u c => if u = v then [c] else cs
+  | .withdraw u => if u = v then [] else cs
+
+theorem entries_applyEl (p : List File) (el : DeltaEl) (v : String) :
+    entries (applyEl p el) v = elEffect el v (entries p v) := by
+  cases el with
+  | publish u c =>
+    simp only [applyEl, elEffect, entries_append]
+    by_cases h : u = v <;> simp [entries, h]
+  | update u c =>
+    simp only [applyEl, elEffect, entries_append, entries_filter_ne]
+    by_cases h : u = v <;> simp [entries, h]
+  | withdraw u =>
+    simp only [applyEl, elEffect, entries_filter_ne]
+
+theorem inSync_applyEl (p m : List File) (el : DeltaEl) (h : InSync p m) :
+    InSync (applyEl p el) (applyEl m el) := by
+  intro v
+  rw [entries_applyEl, entries_applyEl, h v]
+
+theorem inSync_applyDelta (p m : List File) (d : List DeltaEl) (h : InSync p m) :
+    InSync (applyDelta p d) (applyDelta m d) := by
+  induction d generalizing p m with
+  | nil => exact h
+  | cons el t ih => exact ih _ _ (inSync_applyEl p m el h)
+
+/-- The server applies an accepted element exactly as the shadow list does (the refusals are what
+keeps the server's own list free of duplicates). -/
+theorem srvApplyEl_eq (m m' : List File) (el : DeltaEl) (h : srvApplyEl m el = some m') :
+    m' = applyEl m el := by
+  cases el with
+  | publish u c =>
+    simp only [srvApplyEl] at h
+    split at h
+    · cases h
+    · cases h; rfl
+  | update u c =>
+    simp only [srvApplyEl] at h
+    split at h
+    · cases h; rfl
+    · cases h
+  | withdraw u =>
+    simp only [srvApplyEl] at h
+    split at h
+    · cases h; rfl
+    · cases h
+
+theorem srvApply_eq (m m' : List File) (d : List DeltaEl) (h : srvApply m d = some m') :
+    m' = applyDelta m d := by
+  induction d generalizing m with
+  | nil => simp [srvApply] at h; exact h.symm
+  | cons el t ih =>
+    simp only [srvApply] at h
+    cases h1 : srvApplyEl m el with
+    | none => simp [h1] at h
+    | some m1 =>
+      simp only [h1, Option.bind_some] at h
+      rw [ih m1 h, srvApplyEl_eq m m1 el h1]
+      rfl
+
+theorem inSync_refl (p : List File) : InSync p p := fun _ => rfl
+
+theorem inSyncB_iff (p m : List File) : inSyncB p m = true ↔ InSync p m := by
+  unfold inSyncB InSync
+  constructor
+  · intro h u
+    simp only [List.all_eq_true, List.mem_append, List.mem_map, beq_iff_eq] at h
+    by_cases hu : (∃ a ∈ p, a.1 = u) ∨ (∃ a ∈ m, a.1 = u)
+    · exact h u hu
+    · have hp : entries p u = [] := by
+        simp only [entries, List.map_eq_nil_iff, List.filter_eq_nil_iff, decide_eq_true_eq]
+        intro a ha hau; exact hu (Or.inl ⟨a, ha, hau⟩)
+      have hm : entries m u = [] := by
+        simp only [entries, List.map_eq_nil_iff, List.filter_eq_nil_iff, decide_eq_true_eq]
+        intro a ha hau; exact hu (Or.inr ⟨a, ha, hau⟩)
+      rw [hp, hm]
+  · intro h
+    simp only [List.all_eq_true, beq_iff_eq]
+    intro u _
+    exact h u
+
+/-- `Publish` of a URI that is not in the list, `Update`, `Withdraw`: no URI is listed twice
+afterwards. -/
+def freshPublishes : List File → List DeltaEl → Bool
+  | _, [] => true
+  | p, el :: rest =>
+    (match el with
+     | .publish u _ => !(p.any fun e => e.1 = u)
+     | _ => true) && freshPublishes (applyEl p el) rest
+
+theorem nodup_filter_ne (p : List File) (u : String) (h : (p.map (·.1)).Nodup) :
+    ((p.filter fun e => e.1 != u).map (·.1)).Nodup :=
+  List.Nodup.sublist (List.Sublist.map _ List.filter_sublist) h
+
+theorem not_mem_filter_ne (p : List File) (u : String) :
+    u ∉ (p.filter fun e => e.1 != u).map (·.1) := by
+  simp only [List.mem_map, List.mem_filter, not_exists, not_and, and_imp]
+  intro a _ ha hau
+  simp [hau] at ha
+
+theorem nodup_applyEl (p : List File) (el : DeltaEl) (h : (p.map (·.1)).Nodup)
+    (hf : freshPublishes p [el] = true) : ((applyEl p el).map (·.1)).Nodup := by
+  cases el with
+  | publish u c =>
+    simp only [freshPublishes, Bool.and_true, Bool.not_eq_true', List.any_eq_false,
+      decide_eq_true_eq] at hf
+    simp only [applyEl, List.map_append, List.map_cons, List.map_nil]
+    rw [List.nodup_append]
+    refine ⟨h, by simp, ?_⟩
+    intro a ha b hb
+    simp only [List.mem_singleton] at hb
+    subst hb
+    simp only [List.mem_map] at ha
+    obtain ⟨x, hx, rfl⟩ := ha
+    exact hf x hx
+  | update u c =>
+    simp only [applyEl, List.map_append, List.map_cons, List.map_nil]
+    rw [List.nodup_append]
+    refine ⟨nodup_filter_ne p u h, by simp, ?_⟩
+    intro a ha b hb
+    simp only [List.mem_singleton] at hb
+    subst hb
+    intro hab
+    subst hab
+    exact not_mem_filter_ne p a ha
+  | withdraw u => exact nodup_filter_ne p u h
+
+theorem nodup_applyDelta (p : List File) (d : List DeltaEl) (h : (p.map (·.1)).Nodup)
+    (hf : freshPublishes p d = true) : ((applyDelta p d).map (·.1)).Nodup := by
+  induction d generalizing p with
+  | nil => exact h
+  | cons el t ih =>
+    simp only [freshPublishes, Bool.and_eq_true] at hf
+    refine ih (applyEl p el) (nodup_applyEl p el h ?_) hf.2
+    simp only [freshPublishes, Bool.and_true]
+    exact hf.1
+
+/-! ## status store next to the publication server -/
+
+/-- One accepted delta: the shadow list does to itself what the server did to its content. -/
+theorem inSync_of_accepted (p m m' : List File) (d : List DeltaEl)
+    (hsync : InSync p m) (hacc : srvApply m d = some m') : InSync (applyDelta p d) m' := by
+  rw [srvApply_eq m m' d hacc]
+  exact inSync_applyDelta p m d hsync
+
+theorem wstep_keeps_inSync (ca uri : String) (w : World) (m : List File)
+    (hc : Consistent w.store) (hs : w.server = some m)
+    (hin : InSync (w.store.repo ca).published m)
+    (e : WEv) (he : e.outOfBand = false ∧ e.foreign ca = false) :
+    Consistent (wstep ca uri w e).store ∧
+    ∃ m', (wstep ca uri w e).server = some m' ∧
+      InSync ((wstep ca uri w e).store.repo ca).published m' := by
+  cases e with
+  | publisherRemoved => simp [WEv.outOfBand] at he
+  | publisherAdded => simp [WEv.outOfBand] at he
+  | other ev =>
+    simp only [WEv.foreign] at he
+    refine ⟨consistent_step _ hc ev, m, hs, ?_⟩
+    show InSync ((step w.store ev).repo ca).published m
+    rw [repo_step _ hc, repoProj_of_not_touches ev ca _ he.2]
+    exact hin
+  | sync objects now =>
+    have hw : wstep ca uri w (.sync objects now) =
+        { store := run w.store
+            (repoSyncEvents ca uri (some m) objects "list-refused" "delta-refused" now).1,
+          server := (repoSyncEvents ca uri (some m) objects "list-refused" "delta-refused" now).2 } := by
+      simp [wstep, hs]
+    rw [hw]
+    refine ⟨consistent_run _ hc _, ?_⟩
+    simp only [repoSyncEvents]
+    by_cases hd : (diffDelta m objects).isEmpty = true
+    · simp only [hd, if_true]
+      refine ⟨m, rfl, ?_⟩
+      rw [repo_run _ hc]
+      simpa [repoProj, RepoStatus.setLastUpdated] using hin
+    · simp only [hd, Bool.false_eq_true, if_false]
+      cases hacc : srvApply m (diffDelta m objects) with
+      | some m' =>
+        refine ⟨m', rfl, ?_⟩
+        simp only []
+        rw [repo_run _ hc]
+        simp only [List.foldl_cons, List.foldl_nil, repoProj, if_true,
+          RepoStatus.updatePublished, RepoStatus.setLastUpdated]
+        exact inSync_of_accepted _ m m' _ hin hacc
+      | none =>
+        refine ⟨m, rfl, ?_⟩
+        simp only []
+        rw [repo_run _ hc]
+        simpa [repoProj, RepoStatus.setLastUpdated, RepoStatus.setFailure] using hin
+
 end KM.Status
